@@ -46,8 +46,10 @@ class Contract:
 
     # ---------------------------------------------------------------- binding
     def bind(self, args, kwargs):
+        """normalise a call against the signature of the real function WITHOUT filling in its defaults: an argument the
+        caller omits reaches spec / requires / raises as omitted, so that THEIR defaults -- the documented ones -- apply.
+        (Filling in the code's own defaults would make every contract follow a changed default silently.)"""
         ba = self.sig.bind(*args, **kwargs)
-        ba.apply_defaults()
         return ba.args, ba.kwargs
 
     # ------------------------------------------------------------------- stub
